@@ -262,3 +262,20 @@ def build(members, layout=None, password=None, rng=None) -> bytes:
     out += header
     out += bytes(layout.get("trailing", 0))
     return bytes(out)
+
+
+def build_raw_header(desc, layout=None) -> bytes:
+    """Raw Header from an abstract description (sizes/CRCs given, not derived from data):
+    desc = {"pack_pos", "pack_sizes", "pack_crcs", "folders": [{"coders": [(method, props)], "sizes": [...],
+            "folder_crc", "sub_sizes": [...], "sub_crcs": [...]}], "files": [member dicts]}"""
+    layout = dict(layout or {})
+    w = _W(layout.get("nonminimal", 0))
+    w.byte(0x01)
+    if desc.get("folders"):
+        w.byte(0x04)
+        _streams_info(w, desc.get("pack_pos", 0), desc["pack_sizes"], desc.get("pack_crcs"), desc["folders"],
+                      substreams=True, omit_numunpack=layout.get("omit_numunpack", True), explicit=layout.get("explicit_defvec", False))
+    if desc.get("files"):
+        _files_info(w, desc["files"], layout)
+    w.byte(0x00)
+    return bytes(w.b)
